@@ -3,6 +3,7 @@
 From Coq Require Export List NArith ZArith Bool Lia Ascii.
 From Coq Require String.
 Export String.StringSyntax.
+Delimit Scope string_scope with string.
 Notation string := String.string.
 Notation String := String.String.
 Notation EmptyString := String.EmptyString.
